@@ -113,6 +113,8 @@ func checkC05(ctx *Ctx, r *Report) {
 	c05FreshRefsBacked(ctx, r)
 	c05RemovedObjectsRewrittenEverywhere(ctx, r, eng)
 	c05SubstitutedContentRevisited(ctx, r)
+	c05EntryPointFollowsRemoval(ctx, r)
+	c05OpenAPIMappingNames(ctx, r)
 }
 
 // ---------------------------------------------------------------------------
@@ -1590,4 +1592,124 @@ func c05SubstitutedContentRevisited(ctx *Ctx, r *Report) {
 	}
 	r.Count("deleting passes whose OnRef substitutes content", n)
 	r.Floor("deleting passes whose OnRef substitutes content", 1)
+}
+
+// c05EntryPointFollowsRemoval: Schema.EntryPoint / EntryPointType name an object of the schema. Every pass that
+// deletes objects (Objects.Filter assigned back, Objects.Remove) reconciles them: some method of the pass assigns
+// the EntryPoint of a schema.
+func c05EntryPointFollowsRemoval(ctx *Ctx, r *Report) {
+	p := ctx.Pkg("internal/ast/compiler")
+	if p == nil {
+		r.Undecided("anchor lost: internal/ast/compiler")
+		return
+	}
+	info := p.TypesInfo
+	type site struct {
+		pos  token.Pos
+		what string
+	}
+	deleting := map[*types.Named]site{}
+	writes := map[*types.Named]bool{}
+	ctx.AllFuncDecls(func(pk *packages.Package, fd *ast.FuncDecl, obj *types.Func) {
+		if pk != p || fd.Body == nil || fd.Recv == nil {
+			return
+		}
+		sig, _ := obj.Type().(*types.Signature)
+		if sig == nil || sig.Recv() == nil {
+			return
+		}
+		recv := namedOf(sig.Recv().Type())
+		if recv == nil {
+			return
+		}
+		ast.Inspect(fd.Body, func(n ast.Node) bool {
+			switch x := n.(type) {
+			case *ast.AssignStmt:
+				for i, l := range x.Lhs {
+					if s, ok := ast.Unparen(l).(*ast.SelectorExpr); ok {
+						if s.Sel.Name == "EntryPoint" {
+							if f := fieldOf(info, s); f != nil {
+								writes[recv] = true
+							}
+						}
+						if s.Sel.Name == "Objects" && i < len(x.Rhs) {
+							if c, ok := ast.Unparen(x.Rhs[i]).(*ast.CallExpr); ok {
+								if cs, ok := ast.Unparen(c.Fun).(*ast.SelectorExpr); ok && cs.Sel.Name == "Filter" {
+									deleting[recv] = site{x.Pos(), "filters the objects of a schema"}
+								}
+							}
+						}
+					}
+				}
+			case *ast.CallExpr:
+				if s, ok := ast.Unparen(x.Fun).(*ast.SelectorExpr); ok && s.Sel.Name == "Remove" && strings.HasSuffix(exprString(s.X), ".Objects") {
+					deleting[recv] = site{x.Pos(), "removes objects from a schema"}
+				}
+			}
+			return true
+		})
+	})
+	var names []string
+	byName := map[string]*types.Named{}
+	for t := range deleting {
+		names = append(names, t.Obj().Name())
+		byName[t.Obj().Name()] = t
+	}
+	sort.Strings(names)
+	for _, nm := range names {
+		t := byName[nm]
+		r.Check(writes[t], "traverse/entry-point-follows-removal", "internal/ast/compiler."+nm+" reconciles the entry point", deleting[t].pos,
+			"a method of the pass assigns Schema.EntryPoint",
+			"the pass "+deleting[t].what+" and never assigns Schema.EntryPoint: when the object it deletes is the entry point of the schema, EntryPoint and EntryPointType keep naming an object that does not exist any more (the JSON Schema output then writes a root $ref to a missing definition)")
+	}
+	r.Count("passes that delete objects", len(names))
+	r.Floor("passes that delete objects", 4)
+}
+
+// c05OpenAPIMappingNames: in the OpenAPI front-end a discriminator mapping value is a schema name or a reference
+// (`#/components/schemas/Cat`); references are turned into object names by getRefName (walkRef does). The mapping
+// copied into the IR must go through the same function, or its targets name no object.
+func c05OpenAPIMappingNames(ctx *Ctx, r *Report) {
+	fn := ctx.LookupMethod("internal/openapi", "generator", "getDiscriminator")
+	fd, p := ctx.DeclOf(fn)
+	if fd == nil || fd.Body == nil {
+		r.Undecided("anchor lost: openapi.generator.getDiscriminator")
+		return
+	}
+	info := p.TypesInfo
+	n := 0
+	ast.Inspect(fd.Body, func(m ast.Node) bool {
+		as, ok := m.(*ast.AssignStmt)
+		if !ok {
+			return true
+		}
+		for i, l := range as.Lhs {
+			ix, ok := ast.Unparen(l).(*ast.IndexExpr)
+			if !ok {
+				continue
+			}
+			if _, isMap := info.TypeOf(ix.X).Underlying().(*types.Map); !isMap {
+				continue
+			}
+			n++
+			var rhs ast.Expr
+			if len(as.Rhs) == len(as.Lhs) {
+				rhs = as.Rhs[i]
+			} else if len(as.Rhs) == 1 {
+				rhs = as.Rhs[0]
+			}
+			through := false
+			if c, ok := ast.Unparen(rhs).(*ast.CallExpr); ok {
+				if f := callee(info, c); f != nil && f.Name() == "getRefName" {
+					through = true
+				}
+			}
+			r.Check(through, "frontier/openapi-mapping-through-refname", "openapi.getDiscriminator stores mapping targets", as.Pos(),
+				"the stored value is a result of getRefName",
+				"the mapping values are copied as they are written ("+exprString(rhs)+"): for the reference form `#/components/schemas/Cat` the IR's discriminator mapping names an object that does not exist, while walkRef turns the very same string into `Cat`")
+		}
+		return true
+	})
+	r.Count("stores into the discriminator mapping of the OpenAPI front-end", n)
+	r.Floor("stores into the discriminator mapping of the OpenAPI front-end", 1)
 }
